@@ -462,7 +462,112 @@ func c10StressChild(c *ev.Ctx, rounds int, out *json.Encoder) {
 	out.Encode(c10Msg{Kind: "stat", N: total, Stats: map[string]int{"ops": len(ops), "rounds": rounds}})
 }
 
-// c10Worker: worker C10 <seed> <tier> perturb <shard> <nshards> | stress <rounds>
+
+// ---------------- child: the coders' own parallel sections ----------------
+
+// c10PsecChild drives every internal parallel section (hash chain fill, predictor tiles, histogram
+// cost + remap, inverse transforms, ARGB conversion, lossy import / analysis / row pipeline, parallel
+// frame decoding) with inputs above each section's size threshold, under several worker counts and
+// with a few calls in flight at once on different pictures (so pooled scratch changes hands). Every
+// result must equal the one-worker solo result; the worker hook records which sections actually ran.
+func c10PsecChild(c *ev.Ctx, out *json.Encoder) {
+	r := rng(c, 4242)
+	var forced atomic.Int64
+	var mu sync.Mutex
+	sites := map[string]int{}
+	webp.VerifSetWorkers(func(site string, k int) int {
+		mu.Lock()
+		sites[site]++
+		mu.Unlock()
+		if v := forced.Load(); v > 0 {
+			return int(v)
+		}
+		return k
+	})
+	type op struct {
+		name string
+		run  func() string
+	}
+	var ops []op
+	mkopt := func(f func(o *webp.EncoderOptions)) *webp.EncoderOptions { o := webp.DefaultOptions(); f(o); return o }
+	enc := func(name string, m image.Image, o *webp.EncoderOptions) []byte {
+		ops = append(ops, op{"enc/" + name, func() string {
+			b, err := encode(m, o)
+			if err != nil {
+				return errDigest(err)
+			}
+			return ev.Sum(b)
+		}})
+		b, _ := encode(m, o)
+		return b
+	}
+	dec := func(name string, file []byte) {
+		ops = append(ops, op{"dec/" + name, func() string {
+			m, err := decode(file)
+			if err != nil {
+				return errDigest(err)
+			}
+			return imgDigest(m)
+		}})
+	}
+	forced.Store(1)
+	f1 := enc("lossless/bands-400x260-q95", img.Gen(r, "bands", "opaque", 400, 260), mkopt(func(o *webp.EncoderOptions) { o.Lossless = true; o.Quality = 95; o.Method = 4 }))
+	f2 := enc("lossless/pillarbox-330x310-q90", img.Gen(r, "pillarbox", "gradient", 330, 310), mkopt(func(o *webp.EncoderOptions) { o.Lossless = true; o.Quality = 90; o.Method = 3 }))
+	f3 := enc("lossless/photo-350x300-q92", img.Gen(r, "photo", "noise", 350, 300), mkopt(func(o *webp.EncoderOptions) { o.Lossless = true; o.Quality = 92; o.Method = 2; o.Exact = true }))
+	enc("lossless/flatpatch-512x200-q99", img.Gen(r, "flatpatch", "opaque", 512, 200), mkopt(func(o *webp.EncoderOptions) { o.Lossless = true; o.Quality = 99; o.Method = 4 }))
+	enc("lossless/tiles-420x250-q75", img.Gen(r, "tiles", "binary", 420, 250), mkopt(func(o *webp.EncoderOptions) { o.Lossless = true }))
+	f4 := enc("lossy/photo-640x480", img.Gen(r, "photo", "opaque", 640, 480), mkopt(func(o *webp.EncoderOptions) { o.Method = 4 }))
+	f5 := enc("lossy+alpha/tiles-500x300", img.Gen(r, "tiles", "gradient", 500, 300), mkopt(func(o *webp.EncoderOptions) { o.Method = 3; o.Partitions = 2 }))
+	enc("lossy/ycbcr-640x400", img.AsType(r, img.Gen(r, "gradient", "opaque", 640, 400), "YCbCr"), mkopt(func(o *webp.EncoderOptions) { o.Method = 5 }))
+	dec("lossless/bands", f1)
+	dec("lossless/pillarbox", f2)
+	dec("lossless/photo", f3)
+	dec("lossy/photo", f4)
+	dec("lossy+alpha/tiles", f5)
+	solo := make([]string, len(ops))
+	for i, o := range ops {
+		solo[i] = o.run()
+	}
+	total := 0
+	counts := []int64{2, 3, 5, 16}
+	if c.Thorough() {
+		counts = []int64{2, 3, 4, 5, 7, 11, 16, 33, 0}
+	}
+	for round, k := range counts {
+		forced.Store(k) // 0 = whatever GOMAXPROCS gives
+		var wg sync.WaitGroup
+		var mism sync.Map
+		for g := 0; g < 3; g++ {
+			wg.Add(1)
+			go func(g int) {
+				defer wg.Done()
+				pr := rand.New(rand.NewSource(c.Seed*77 + int64(round)*13 + int64(g)))
+				for _, i := range pr.Perm(len(ops)) {
+					if d := ops[i].run(); d != solo[i] {
+						mism.LoadOrStore(i, d)
+					}
+				}
+			}(g)
+		}
+		wg.Wait()
+		total += 3 * len(ops)
+		mism.Range(func(key, v any) bool {
+			i := key.(int)
+			out.Encode(c10Msg{Kind: "viol", I: i, Class: "worker-count-or-schedule-dependent", Desc: ops[i].name,
+				Detail: fmt.Sprintf("with %d internal workers and 3 calls in flight: %q, one worker alone: %q", k, v.(string), solo[i])})
+			return true
+		})
+	}
+	st := map[string]int{"psec_ops": len(ops)}
+	mu.Lock()
+	for k, v := range sites {
+		st["section:"+k] = v
+	}
+	mu.Unlock()
+	out.Encode(c10Msg{Kind: "stat", N: total, Stats: st})
+}
+
+// c10Worker: worker C10 <seed> <tier> perturb <shard> <nshards> | stress <rounds> | psec
 func c10Worker(args []string) int {
 	if len(args) < 3 {
 		return 2
@@ -478,6 +583,8 @@ func c10Worker(args []string) int {
 	case "stress":
 		r, _ := strconv.Atoi(args[3])
 		c10StressChild(c, r, out)
+	case "psec":
+		c10PsecChild(c, out)
 	}
 	return 0
 }
@@ -593,6 +700,13 @@ func runC10(c *ev.Ctx) {
 		msgs, se, err := run(exe, nil, time.Duration(c.N(200, 3000))*time.Second, "stress", strconv.Itoa(c.N(10, 200)))
 		handle("stress", msgs, se, err)
 	}()
+	// parallel sections, std build
+	wg.Add(1)
+	go func() {
+		defer wg.Done()
+		msgs, se, err := run(exe, nil, time.Duration(c.N(300, 3000))*time.Second, "psec")
+		handle("psec", msgs, se, err)
+	}()
 	wg.Wait()
 	// (a): race build (on an otherwise idle machine)
 	if raceExe == "" {
@@ -603,6 +717,8 @@ func runC10(c *ev.Ctx) {
 		logp := filepath.Join(dir, "race.log")
 		msgs, se, err := run(raceExe, []string{"GORACE=halt_on_error=0 log_path=" + logp}, time.Duration(c.N(300, 3600))*time.Second, "stress", strconv.Itoa(c.N(3, 40)))
 		handle("race-stress", msgs, se, err)
+		msgs, se, err = run(raceExe, []string{"GORACE=halt_on_error=0 log_path=" + logp}, time.Duration(c.N(600, 3600))*time.Second, "psec")
+		handle("race-psec", msgs, se, err)
 		nsRace := 2
 		for s := 0; s < nsRace; s++ {
 			msgs, se, err = run(raceExe, []string{"GORACE=halt_on_error=0 log_path=" + logp, "GOMAXPROCS=8"}, time.Duration(c.N(300, 3600))*time.Second, "perturb", strconv.Itoa(s), strconv.Itoa(nsh*c.N(4, 2)))
